@@ -114,7 +114,7 @@ func (t *Table) internEntries(es []Entry) int64 {
 			return id
 		}
 	}
-	key := "\x00entries:" + coqPairs(es)
+	key := "\x00entries:" + mustJSON(es)
 	id := int64(len(t.ids))
 	t.ids[key] = id
 	t.entries[id] = es
